@@ -410,26 +410,40 @@ def i5_i6(prog: Program, chk: Check) -> None:
     cp = prog.unit("mps_mpo:compute_tebd_propagator")
     chk.saw(cp)
     branches = {}
-    for st in walk_local(cp.node):
-        if isinstance(st, ast.If) and isinstance(st.test, ast.Compare) and \
-                dotted(st.test.left) == "order" and isinstance(st.test.comparators[0], ast.Constant):
-            cur = st
-            while True:
-                order = cur.test.comparators[0].value
-                dt_e, seq = None, None
-                for x in ast.walk(ast.Module(body=cur.body, type_ignores=[])):
-                    if isinstance(x, ast.Call) and call_name(x) == "compute_trotter_layers":
-                        dt_e = next(k.value for k in x.keywords if k.arg == "dt")
-                    if isinstance(x, ast.Call) and call_name(x) == "TebdPropagator":
-                        lst = next(k.value for k in x.keywords if k.arg == "gate_layers")
-                        seq = [e.slice.value for e in lst.elts]
-                branches[order] = (dt_e, seq)
-                if len(cur.orelse) == 1 and isinstance(cur.orelse[0], ast.If) and \
-                        isinstance(cur.orelse[0].test, ast.Compare):
-                    cur = cur.orelse[0]
-                else:
-                    break
-            break
+    # each TebdPropagator(...) construction belongs to the branch `order == k` that encloses it
+    for x in walk_local(cp.node):
+        if not (isinstance(x, ast.Call) and call_name(x) == "TebdPropagator"):
+            continue
+        order = None
+        for (t, br) in branch_context(cp.node, x):
+            if isinstance(t, ast.Compare) and len(t.ops) == 1 and isinstance(t.ops[0], ast.Eq) \
+                    and br and isinstance(t.comparators[0], ast.Constant) \
+                    and dotted(t.left) == "order" and "order" in cp.params:
+                order = t.comparators[0].value
+        if order is None:
+            raise AnalysisError("I6: a TebdPropagator is built outside an `order == k` branch")
+        lst = next((k.value for k in x.keywords if k.arg == "gate_layers"), None)
+        if not isinstance(lst, (ast.List, ast.Tuple)):
+            raise AnalysisError("I6: gate_layers of TebdPropagator is not a literal sequence")
+        seq, dts = [], set()
+        du_cp = DefUse(cp, CFG(cp.node, exc_edges=False))
+        for e in lst.elts:
+            # each element is <layers>[parity] with <layers> = compute_trotter_layers(.., dt=..)
+            if not (isinstance(e, ast.Subscript) and isinstance(e.slice, ast.Constant)):
+                raise AnalysisError(f"I6: gate layer `{norm(e)}` is not <layers>[parity]")
+            seq.append(e.slice.value)
+            src = e.value
+            if isinstance(src, ast.Name):
+                d = du_cp.unique_value(du_cp.node_of(x), src.id)
+                src = d.value if d is not None else None
+            if not (isinstance(src, ast.Call) and call_name(src) == "compute_trotter_layers"):
+                raise AnalysisError(f"I6: gate layer `{norm(e)}` does not come from "
+                                    f"compute_trotter_layers")
+            dts.add(norm(next(k.value for k in src.keywords if k.arg == "dt")))
+            dt_e = next(k.value for k in src.keywords if k.arg == "dt")
+        if len(dts) != 1:
+            raise AnalysisError(f"I6: layers of order {order} use different time steps {dts}")
+        branches[order] = (dt_e, seq)
     for order, (dt_e, seq) in sorted(branches.items()):
         frac = None
         if dt_e is not None:
